@@ -82,8 +82,12 @@ int _skinny_has_vec256(void)
     uint32_t ebx = 0;
     uint32_t ecx = 0;
     uint32_t edx = 0;
-    __cpuid_count(7, 0, eax, ebx, ecx, edx);
-    detected = (ebx & (1 << 5)) != 0;
+    /* Leaf 7 only exists if the CPU says so: beyond the highest leaf
+       the registers come back with unrelated data */
+    if (__get_cpuid_max(0, 0) >= 7) {
+        __cpuid_count(7, 0, eax, ebx, ecx, edx);
+        detected = (ebx & (1 << 5)) != 0;
+    }
 #endif
 #endif
 #if defined(SKINNY_C_VERIF)
